@@ -34,10 +34,39 @@ def fq(s):
 
 
 def parse_dump(out):
-    d = {'P': None, 'B': {'N': [], 'E': []}, 'A': {'N': [], 'E': [], 'S': [], 'X': '0'}, 'exc': None, 'T': None}
+    d = {'P': None, 'B': {'N': [], 'E': []}, 'A': {'N': [], 'E': [], 'S': [], 'X': '0', 'B': []}, 'exc': None, 'T': None, 'L': {}, 'CB': [], 'R': []}
     for line in out.split('\n'):
         f = line.split()
         if not f:
+            continue
+        if f[0] == 'C' and len(f) == 7 and f[1] == 'B':     # --trace only: AestheticBend (edge src, edge tgt, bend, nbr1, nbr2)
+            d['CB'].append(tuple(int(x) for x in f[2:7]))
+            continue
+        if f[0] == 'R':    # --trace only: a peeled tree (root, members)
+            d['R'].append((int(f[1]), [int(x) for x in f[2:]]))
+            continue
+        if f[0] == 'L':      # --trace only: snapshot of a graph of the pipeline (floats: diagnosis only)
+            if len(f) < 3:
+                d['L'][f[1]] = None
+                continue
+            st = d['L'].setdefault(f[1], {'N': {}, 'E': [], 'S': {}, 'X': 0.0})
+            if st is None:
+                continue
+            if f[2] == 'N':
+                st['N'][int(f[3])] = tuple(float(x) for x in f[4:8])
+            elif f[2] == 'E':
+                st['E'].append((int(f[3]), int(f[4]), [float(x) for x in f[6:6 + 2 * int(f[5])]]))
+            elif f[2] == 'X':
+                st['X'] = float(f[3])
+            elif f[2] == 'S':
+                a, b = int(f[3]), int(f[4])
+                st['S'][(min(a, b), max(a, b))] = (a, b) + tuple(int(x) for x in f[5:10]) + (float(f[10]), int(f[11]), float(f[12]))
+            elif f[2] in ('PARSEFAIL', 'NAMES_MISMATCH'):
+                d['L'][f[1]] = None
+            continue
+        if f[0] == 'A' and len(f) > 2 and f[1] == 'B':      # --trace only: aesthetic-bend nodes left on an edge of G
+            k = int(f[4])
+            d['A']['B'].append((int(f[2]), int(f[3]), [(int(f[5 + 3 * i]), float(f[6 + 3 * i]), float(f[7 + 3 * i])) for i in range(k)]))
             continue
         if f[0] == 'EXC':
             d['exc'] = line[4:].strip()
@@ -117,6 +146,14 @@ def run_case(exe, drv, case, tmpdir, idx):
         r['checker_error'] = (verr or vout)[-1500:]
         return r
     r['verdict'] = parse_verdict(vout.strip().split('\n')[-1])
+    if not r['verdict']['ok'] and not is_tree(d):
+        # a rejected drawing of a graph with a core: get the pipeline's intermediate graphs for the known-finding classifiers
+        rc3, tout, terr, dt3 = C.sh([exe, '--trace', p], timeout=600)
+        r['trace_time'] = dt3
+        if rc3 == 0:
+            r['trace'] = parse_dump(tout)
+        else:
+            r['trace_error'] = 'rc=%d %s' % (rc3, terr[-300:])
     return r
 
 
@@ -192,125 +229,357 @@ def two_core(d):
     return alive
 
 
-def padded_collision(d, pad_side, iel):
-    """node pairs in adjacent ranks of a tree layout (centres exactly rankSep*IEL = IEL apart along one axis, hola.cpp:103
-    with the default treeLayoutScalar_rankSep = 1) whose final boxes, inflated by the node padding the layout works
-    with, overlap with positive area"""
-    N = d['A']['N']
+# ------------------------------------------------------------------------- known-finding classifiers (floats; label only)
+# A classifier is a predicate on ONE rejected drawing that says "this rejection is produced by the mechanism of the
+# registered finding".  It is evaluated on the input (graph + options), on the judged drawing, and - for graphs with
+# a core - on the library's own intermediate results (core graph, planarised graph P, chains, peeled trees) obtained
+# from `c14_hola --trace` (harness/c14_hola.cpp: a verbatim copy of doHOLA that snapshots those graphs).  The traced
+# run must reproduce the judged drawing, otherwise nothing about the judged drawing is explained by it and the
+# rejection stays a VIOLATION.  Every way out of a classifier returns a reason that is stored in the replay file.
+SAME_TOL = 1e-9
+# fingerprint -> (denominator: drawings of whole-graph trees / of graphs with a core / of graphs with a core in chain mode,
+#                 3 x the largest hits/denominator seen on the unchanged tree over the calibration seeds, absolute slack)
+RATE_LIMITS = {     # calibration: VERIF_SEED 1..12 quick, 1..3 thorough on the unchanged tree (largest rate seen in the comment)
+    'tree_centre_child_alignment': ('tree', 0.55, 0),       # 0.359 (more than a third of all trees: 1.5 x, not 3 x)
+    'tree_rank_collision': ('tree', 0.075, 3),              # 0.024
+    'stale_core_constraint': ('core', 0.12, 3),             # 0.039
+    'chain_bend_unaligned': ('chain', 0.035, 3),            # 0.011
+    'padded_gap_lost': ('core', 0.018, 3),                  # 0.006
+    'large_graph_overlap': ('core', 0.0045, 3),             # 0.0015
+}
+GROWTH = {0: (1, 1.0), 1: (2, 1.0), 2: (1, -1.0), 3: (2, -1.0)}     # HolaOpts::defaultTreeGrowthDir as the harness numbers it -> (index into an A N tuple, sign)
+GENERIC_ASSERT_SITES = {'exception:assert:faces.cpp:u_!=_nullptr'}     # sites named in the text of the catch-all line `exception:assert`
+CLUSTER_DESTRESS = ('P_nbr_destress', 'P_near_alignments')          # P->destress(colaOpts) with node clusters, hola.cpp:289 / :301
+
+
+def pkey(a, b):
+    return (min(a, b), max(a, b))
+
+
+def drawing_diff(dA, dB):
+    """largest absolute difference between two dumps of the returned drawing (positions, sizes, route points, gaps); inf
+    when they differ in structure"""
+    inf = float('inf')
+    A = {n[0]: n for n in dA['A']['N']}
+    B = {n[0]: n for n in dB['A']['N']}
+    if set(A) != set(B) or len(dA['A']['E']) != len(dB['A']['E']) or len(dA['A']['S']) != len(dB['A']['S']):
+        return inf
+    m = 0.0
+    for k in A:
+        for j in range(1, 5):
+            m = max(m, abs(float(A[k][j]) - float(B[k][j])))
+    for a, b in zip(dA['A']['E'], dB['A']['E']):
+        if a[:2] != b[:2] or len(a[2]) != len(b[2]):
+            return inf
+        for x, y in zip(a[2], b[2]):
+            m = max(m, abs(float(x) - float(y)))
+    for a, b in zip(dA['A']['S'], dB['A']['S']):
+        if a[:7] != b[:7] or a[8] != b[8]:
+            return inf
+        m = max(m, abs(float(a[7]) - float(b[7])), abs(float(a[9]) - float(b[9])))
+    return m
+
+
+def first_difference(dA, dB):
+    A = {n[0]: n for n in dA['A']['N']}
+    B = {n[0]: n for n in dB['A']['N']}
+    for k in sorted(A):
+        if k not in B or any(abs(float(A[k][j]) - float(B[k][j])) > SAME_TOL for j in range(1, 5)):
+            return 'node %d: judged %s, reference %s' % (k, [float(x) for x in A[k][1:]], [float(x) for x in B[k][1:]] if k in B else None)
+    EB = {(e[0], e[1]): e[2] for e in dB['A']['E']}
+    for (a, b, pts) in dA['A']['E']:
+        q = EB.get((a, b))
+        if q is None or len(q) != len(pts) or any(abs(float(x) - float(y)) > SAME_TOL for x, y in zip(pts, q)):
+            return 'route %d-%d: judged %s, reference %s' % (a, b, [float(x) for x in pts], [float(x) for x in q] if q else None)
+    return 'returned constraints differ'
+
+
+def pierced_nodes(d, s, t, rt):
+    """[(segment index, node id)]: nodes other than the ends whose open box meets a segment of the route"""
     out = []
-    for i in range(len(N)):
-        for j in range(i + 1, len(N)):
-            a, b = N[i], N[j]
-            dx, dy = abs(float(a[1]) - float(b[1])), abs(float(a[2]) - float(b[2]))
-            if abs(dx - iel) > 1e-6 * iel and abs(dy - iel) > 1e-6 * iel:
-                continue
-            ba, bb = fbox(a), fbox(b)
-            ox = min(ba[1], bb[1]) - max(ba[0], bb[0]) + 2 * pad_side
-            oy = min(ba[3], bb[3]) - max(ba[2], bb[2]) + 2 * pad_side
-            if ox > 1e-9 and oy > 1e-9:
-                out.append((a[0], b[0]))
+    for n in d['A']['N']:
+        if n[0] in (s, t):
+            continue
+        b = fbox(n)
+        for i in range(0, len(rt) - 2, 2):
+            x0, x1 = sorted((rt[i], rt[i + 2]))
+            y0, y1 = sorted((rt[i + 1], rt[i + 3]))
+            if min(x1 - b[0], b[1] - x0, y1 - b[2], b[3] - y0) > 1e-6:
+                out.append((i // 2, n[0]))
     return out
 
 
-def adjacent_rank_pair(d, pair, iel):
+def diagonal_segments(rt):
+    return [i // 2 for i in range(0, len(rt) - 2, 2) if abs(rt[i] - rt[i + 2]) > 1e-9 and abs(rt[i + 1] - rt[i + 3]) > 1e-9]
+
+
+def tree_ranks(case, d, iel):
+    """rank of every node of a whole-graph tree, read off the returned positions: Tree::symmetricLayout puts rank k
+    exactly k*rankSep (= k*IEL, treeLayoutScalar_rankSep = 1) from the root along the growth axis.  Returns
+    (rank dict, parent dict, children dict, axis index, transverse index) or None when the drawing is not ranked so."""
+    k, sg = GROWTH[int(case.get('opts', {}).get('defaultTreeGrowthDir', 1)) & 3]
     A = {n[0]: n for n in d['A']['N']}
-    a, b = A[pair[0]], A[pair[1]]
-    dx, dy = abs(float(a[1]) - float(b[1])), abs(float(a[2]) - float(b[2]))
-    return abs(dx - iel) <= 1e-6 * iel or abs(dy - iel) <= 1e-6 * iel
+    g = {i: sg * float(A[i][k]) for i in A}
+    g0 = min(g.values())
+    rank = {}
+    for i in A:
+        q = (g[i] - g0) / iel
+        if abs(q - round(q)) > 1e-6:
+            return None
+        rank[i] = int(round(q))
+    adj = collections.defaultdict(set)
+    for a, b in d['B']['E']:
+        adj[a].add(b)
+        adj[b].add(a)
+    parent, children = {}, collections.defaultdict(list)
+    for i in A:
+        up = [j for j in adj[i] if rank[j] == rank[i] - 1]
+        if len(up) + len([j for j in adj[i] if rank[j] == rank[i] + 1]) != len(adj[i]) or len(up) != (0 if rank[i] == 0 else 1):
+            return None
+        if up:
+            parent[i] = up[0]
+            children[up[0]].append(i)
+    if sum(1 for i in A if rank[i] == 0) != 1:
+        return None
+    return rank, parent, children, k, 3 - k
 
 
-def classify(case, r, info):
-    """fingerprint of a checker rejection: a predicate on the failing case (KNOWN_FINDINGS.txt), or None when the
-    rejection is not explained by a known finding.  Only `overlap`, `routes` and `seps` rejections can be known."""
+def canon(v, children):
+    """canonical form of the rooted subtree at v (rooted-tree isomorphism, what Tree::computeIsomString decides)"""
+    return '(' + ''.join(sorted(canon(c, children) for c in children.get(v, []))) + ')'
+
+
+def classify_tree(case, r, info):
+    d, v = r['dump'], r['verdict']
+    iel, pad = v['iel'], v['pad']
+    tr = tree_ranks(case, d, iel)
+    if tr is None:
+        return None, 'the returned positions are not in ranks k*IEL along the growth axis'
+    rank, parent, children, ax, tv = tr
+    A = {n[0]: n for n in d['A']['N']}
+    fps = set()
+
+    def padded_overlap(a, b):
+        ba, bb = fbox(A[a]), fbox(A[b])
+        return min(ba[1], bb[1]) - max(ba[0], bb[0]) + 2 * pad > 1e-9 and min(ba[3], bb[3]) - max(ba[2], bb[2]) + 2 * pad > 1e-9
+
+    for bs in info.get('bad_seps', []):
+        a, b = bs['pair']
+        dim, st, gt = bs['what'].split()[0:3]
+        zero_gap = 'gap +0:' in bs['what'].replace('gap -0:', 'gap +0:')
+        if (st, gt) == ('EQ', 'CENTRE'):
+            # Tree::addConstraints aligns a node that has an odd number of children with its median child (by transverse
+            # coordinate); symmetricLayout puts a c-tree under the parent only when exactly ONE isomorphism class of
+            # c-trees has odd order.  Genuine: the parent's c-trees have >= 2 (hence >= 3) odd-order classes.
+            if not zero_gap or dim != 'xy'[tv - 1]:
+                return None, 'violated alignment %s is not a transverse centre alignment with gap 0' % bs['what']
+            u, c = (a, b) if parent.get(b) == a else (b, a) if parent.get(a) == b else (None, None)
+            if u is None:
+                return None, 'violated alignment %d-%d does not join a parent and its child' % (a, b)
+            ch = sorted(children[u], key=lambda q: float(A[q][tv]))
+            if len(ch) % 2 == 0 or ch[(len(ch) - 1) // 2] != c:
+                return None, 'violated alignment %d-%d: %d is not the median child of an odd number of children' % (a, b, c)
+            cls = collections.Counter(canon(q, children) for q in ch)
+            if sum(1 for n in cls.values() if n % 2 == 1) < 2:
+                return None, 'violated alignment %d-%d: exactly one isomorphism class of c-trees has odd order, so the median child should be under its parent' % (a, b)
+            fps.add('tree_centre_child_alignment')
+        elif (st, gt) == ('INEQ', 'BDRY'):
+            # rank separation (tallest nodes of neighbouring ranks, gap 0 between boundaries along the growth axis): ranks are
+            # exactly IEL apart between centres whatever the node extents
+            if dim != 'xy'[ax - 1] or abs(rank[a] - rank[b]) != 1:
+                return None, 'violated boundary separation %s is not a separation of neighbouring ranks along the growth axis' % bs['what']
+            if (float(A[a][ax + 2]) + float(A[b][ax + 2])) / 2 <= iel:
+                return None, 'violated rank separation %d-%d although the half extents fit into rankSep' % (a, b)
+            fps.add('tree_rank_collision')
+        else:
+            return None, 'violated constraint %s is neither a centre alignment nor a rank separation' % bs['what']
+    for ov in info.get('overlapping', []):
+        a, b = ov['nodes']
+        if rank[a] == rank[b]:
+            return None, 'nodes %d and %d of the same rank overlap' % (a, b)
+        fps.add('tree_rank_collision')
+    for be in info.get('bad_edges', []):
+        s, t = be['edge']
+        if not set(be['fails']) <= set('pt') or s not in A or t not in A:
+            return None, 'route %d-%d fails %s' % (s, t, be['fails'])
+        # the tree is routed with the padded nodes as obstacles: a collision of padded boxes of different ranks either glues
+        # the two end nodes together (no orthogonal route, libavoid returns the straight line) or puts a foreign node into
+        # the channel of this edge
+        rt = be['route']
+        end_collides = padded_overlap(s, t) or any(rank[q] != rank[e] and padded_overlap(q, e) for e in (s, t) for q in A if q not in (s, t))
+        if len(rt) == 4 and diagonal_segments(rt):
+            # libavoid's fallback, the straight line between the end points: it found no orthogonal route because the padded
+            # box of an end node collides with a padded box of another rank (what the line then crosses is incidental)
+            if not end_collides:
+                return None, 'route %d-%d is a straight diagonal but no padded box of another rank collides with its end nodes' % (s, t)
+        else:
+            if be['fails'] != 't':
+                return None, 'route %d-%d fails %s and is not the 2-point fallback' % (s, t, be['fails'])
+            for (_, q) in pierced_nodes(d, s, t, rt):
+                if not any(rank[q] != rank[e] and padded_overlap(q, e) for e in (s, t)):
+                    return None, 'route %d-%d runs through node %d whose padded box does not collide with an end node of another rank' % (s, t, q)
+        fps.add('tree_rank_collision')
+    return (sorted(fps), None) if fps else (None, 'nothing classified')
+
+
+def stage_suffix(name):
+    return name[3:] if re.match(r'\d\d_', name) else name
+
+
+def first_overlap_stage(t, a, b):
+    """(suffix of the first snapshot of P in which the boxes of a and b overlap, do they stay overlapping until the end,
+    suffix of the snapshot before, offset b - a in that snapshot before, offset b - a in the first overlapping one)"""
+    seq = []
+    for name, st in t['L'].items():
+        sfx = stage_suffix(name)
+        if st is None or not (sfx.startswith('P_') or sfx == 'planar_graph_P'):
+            continue
+        if a in st['N'] and b in st['N']:
+            na, nb = st['N'][a], st['N'][b]
+            ox = min(na[0] + na[2] / 2, nb[0] + nb[2] / 2) - max(na[0] - na[2] / 2, nb[0] - nb[2] / 2)
+            oy = min(na[1] + na[3] / 2, nb[1] + nb[3] / 2) - max(na[1] - na[3] / 2, nb[1] - nb[3] / 2)
+            seq.append((sfx, ox > 1e-9 and oy > 1e-9, (nb[0] - na[0], nb[1] - na[1])))
+    for i, (sfx, o, off) in enumerate(seq):
+        if o:
+            return sfx, all(x[1] for x in seq[i:]), (seq[i - 1][0] if i else None), (seq[i - 1][2] if i else None), off
+    return None, False, None, None, None
+
+
+def is_turn_image(d0, d1):
+    """d1 is d0 turned by 0, 90, 180 or 270 degrees, i.e. nothing but Graph::rotate90 / rotate180 moved the two nodes"""
+    return any(abs(d1[0] - x) <= 1e-9 and abs(d1[1] - y) <= 1e-9
+               for (x, y) in ((d0[0], d0[1]), (-d0[1], d0[0]), (-d0[0], -d0[1]), (d0[1], -d0[0])))
+
+
+def classify_core(case, r, info):
     d, v = r['dump'], r['verdict']
     opts = case.get('opts', {})
     failed = set(info['failed'])
-    if not failed or not failed <= {'overlap', 'routes', 'seps'}:
-        return None
-    edges = set((min(a, b), max(a, b)) for a, b in d['B']['E'])
+    t = r.get('trace')
+    if t is None or t.get('exc') is not None:
+        return None, 'no trace: c14_hola --trace did not return a drawing (%s)' % (r.get('trace_error') or (t or {}).get('exc'))
+    diff = drawing_diff(d, t)
+    info['trace_reproduces_drawing_within'] = diff
+    if not diff <= SAME_TOL:
+        return None, ('the reference pipeline (harness copy of doHOLA, hola.cpp:59-439) does not reproduce the judged drawing (max difference %g; '
+                      '%s): the mechanism of no known finding can be established for it' % (diff, first_difference(d, t)))
+    Pf, Cf = t['L'].get('P_final'), t['L'].get('core_final')
+    if not Pf or not Cf:
+        return None, 'trace has no snapshot of P / core'
     A = {n[0]: n for n in d['A']['N']}
-    tree = info['whole_graph_is_tree']
+    pad = v['pad']
     fps = set()
 
-    def dimkind(bs):
-        return bs['what'].split()[1:3]
+    def dropped(a, b):      # a constraint the core carries and the planarised graph does not
+        return pkey(a, b) in Cf['S'] and pkey(a, b) not in Pf['S']
 
-    if tree:
-        coll = padded_collision(d, v['pad'], v['iel'])
-        for bs in info.get('bad_seps', []):
-            pair = (min(bs['pair']), max(bs['pair']))
-            (xgt, ygt, xst, yst, sx, gx, sy, gy) = bs['sep']
-            if dimkind(bs) == ['EQ', 'CENTRE'] and pair in edges and 'gap +0:' in bs['what'].replace('gap -0:', 'gap +0:'):
-                fps.add('tree_centre_child_alignment')
-            elif dimkind(bs) == ['INEQ', 'BDRY'] and adjacent_rank_pair(d, bs['pair'], v['iel']):
-                fps.add('tree_rank_collision')
-            else:
-                return None
-        if ('overlap' in failed or 'routes' in failed):
-            if not coll:
-                return None
-            fps.add('tree_rank_collision')
-        return sorted(fps) if fps else None
-    # graphs with a core
-    core = two_core(d)
+    # --- seps: stale_core_constraint
     for bs in info.get('bad_seps', []):
-        if bs['pair'][0] in core and bs['pair'][1] in core:
-            fps.add('stale_core_constraint')
-        else:
-            return None
-    pad_side = v['pad']
+        a, b = bs['pair']
+        k = pkey(a, b)
+        if k in Pf['S']:
+            return None, 'violated constraint %d-%d (%s) is carried by the planarised graph P, whose layout produced the positions' % (a, b, bs['what'])
+        if k not in Cf['S']:
+            return None, 'violated constraint %d-%d (%s) is not a constraint of the core graph' % (a, b, bs['what'])
+        ret = [x for x in d['A']['S'] if pkey(x[0], x[1]) == k][0]
+        if tuple(Cf['S'][k][2:7]) != tuple(ret[2:7]):
+            return None, 'violated constraint %d-%d (%s) differs from the one the core graph carries' % (a, b, bs['what'])
+        fps.add('stale_core_constraint')
 
-    def near(a, b):     # boxes inflated by the padding per side overlap
-        ba, bb = fbox(A[a]), fbox(A[b])
-        return min(ba[1], bb[1]) - max(ba[0], bb[0]) + 2 * pad_side > 0 and min(ba[3], bb[3]) - max(ba[2], bb[2]) + 2 * pad_side > 0
+    # --- the peeled trees: cluster members are the non-root nodes
+    cluster_of = {}
+    for ti, (root, members) in enumerate(t.get('R', [])):
+        for m in members:
+            if m != root:
+                cluster_of[m] = ti
 
-    big_overlap = False
-    if 'overlap' in failed:
-        for ov in info['overlapping']:
-            ba, bb = ov['boxes']
-            ox = min(ba[1], bb[1]) - max(ba[0], bb[0])
-            oy = min(ba[3], bb[3]) - max(ba[2], bb[2])
-            if min(ox, oy) >= 2 * pad_side:
-                big_overlap = True
-        if big_overlap and len(d['A']['N']) < 60:
-            return None
-        fps.add('large_graph_overlap' if big_overlap else 'padded_gap_lost')
-    if 'routes' in failed:
-        chain_like, gap_like, big_routes_ok = True, True, True
-        for be in info['bad_edges']:
-            s, t = be['edge']
-            rt = be['route']
-            if s not in A or t not in A or len(rt) < 4:
-                return None
-            at_centres = abs(rt[0] - float(A[s][1])) < 1e-9 and abs(rt[1] - float(A[s][2])) < 1e-9 and \
-                abs(rt[-2] - float(A[t][1])) < 1e-9 and abs(rt[-1] - float(A[t][2])) < 1e-9
-            if not (set(be['fails']) <= set('pt') and at_centres and len(rt) >= 6 and opts.get('useACAforLinks', 1) == 0):
-                chain_like = False
-            pierced = []
-            for n in d['A']['N']:
-                if n[0] in (s, t):
-                    continue
-                b = fbox(n)
-                for i in range(0, len(rt) - 2, 2):
-                    x0, x1 = sorted((rt[i], rt[i + 2]))
-                    y0, y1 = sorted((rt[i + 1], rt[i + 3]))
-                    if min(x1 - b[0], b[1] - x0, y1 - b[2], b[3] - y0) > 1e-6:
-                        pierced.append(n[0])
-                        break
-            if not (be['fails'] == 't' and pierced and all(near(q, s) or near(q, t) for q in pierced)):
-                gap_like = False
-            if big_overlap and any(s in ov['nodes'] or t in ov['nodes'] for ov in info['overlapping']):
-                continue    # a connector of a node that overlaps another node: consequence of large_graph_overlap
-            big_routes_ok = False
-        if big_overlap and big_routes_ok:
-            pass
-        elif chain_like:
+    def cluster_overlap(a, b):
+        """the boxes of a and b in P are disjoint until one of the destress runs WITH node clusters (hola.cpp:289, :301, or the one
+        inside Graph::rotate90 called from :333/:340), overlap after it and stay so; one of the two is a cluster member and the
+        other is not in that cluster"""
+        sfx, stays, before, off0, off1 = first_overlap_stage(t, a, b)
+        if sfx is None:
+            return 'the boxes of %d and %d never overlap in P' % (a, b)
+        if sfx == 'P_rotation':
+            # Graph::rotate90 turns the centres and then runs the same destress with node clusters (graphs.cpp:741-744); it is that
+            # destress only if it moved the two nodes: an overlap that the bare quarter turn of non-square nodes leaves behind is not
+            if off0 is None or is_turn_image(off0, off1):
+                return ('the boxes of %d and %d first overlap in P at stage P_rotation and their offset is the bare turn of the offset before '
+                        '(no destress moved them)' % (a, b))
+        elif sfx not in CLUSTER_DESTRESS:
+            return 'the boxes of %d and %d first overlap in P at stage %s (after %s)' % (a, b, sfx, before)
+        if not stays:
+            return 'the boxes of %d and %d overlap in P at stage %s but not in every later snapshot' % (a, b, sfx)
+        if cluster_of.get(a) is None and cluster_of.get(b) is None:
+            return 'neither %d nor %d is a non-root node of a peeled tree' % (a, b)
+        if cluster_of.get(a) == cluster_of.get(b):
+            return '%d and %d belong to the same tree cluster' % (a, b)
+        return None
+
+    big = False
+    ov_nodes = set()
+    for ov in info.get('overlapping', []):
+        a, b = ov['nodes']
+        why = cluster_overlap(a, b)
+        if why:
+            return None, 'overlap: ' + why
+        ba, bb = ov['boxes']
+        isbig = min(min(ba[1], bb[1]) - max(ba[0], bb[0]), min(ba[3], bb[3]) - max(ba[2], bb[2])) >= 2 * pad
+        big = big or isbig
+        ov_nodes |= {a, b}
+        fps.add('large_graph_overlap' if isbig else 'padded_gap_lost')
+
+    # --- routes
+    bends = collections.defaultdict(list)
+    for (es, et, bn, n1, n2) in t.get('CB', []):
+        bends[pkey(es, et)].append(bn)
+    for be in info.get('bad_edges', []):
+        s, tt = be['edge']
+        rt = be['route']
+        if s not in A or tt not in A or len(rt) < 4 or not set(be['fails']) <= set('pt'):
+            return None, 'route %d-%d fails %s' % (s, tt, be['fails'])
+        pier = pierced_nodes(d, s, tt, rt)
+        bn = bends.get(pkey(s, tt))
+        if bn:
+            # an edge the Chains gave an aesthetic bend: Graph::buildRoutes made centre -> bend node -> centre
+            if opts.get('useACAforLinks', 1) != 0 or len(bn) != 1 or len(rt) != 6:
+                return None, 'route %d-%d has %d aesthetic bends and %d points' % (s, tt, len(bn), len(rt) // 2)
+            b = bn[0]
+            cs, ct = (float(A[s][1]), float(A[s][2])), (float(A[tt][1]), float(A[tt][2]))
+            if max(abs(rt[0] - cs[0]), abs(rt[1] - cs[1]), abs(rt[4] - ct[0]), abs(rt[5] - ct[1])) > SAME_TOL:
+                return None, 'route %d-%d with an aesthetic bend does not start and end at the centres' % (s, tt)
+            if b not in Pf['N'] or max(abs(rt[2] - Pf['N'][b][0]), abs(rt[3] - Pf['N'][b][1])) > SAME_TOL:
+                return None, ('the bend point (%g, %g) of route %d-%d is not the final position %s of its bend node in P (stale bend point)'
+                              % (rt[2], rt[3], s, tt, Pf['N'].get(b, (None, None))[:2]))
+            bad_segs = set(diagonal_segments(rt)) | set(i for i, _ in pier)
+            for i in bad_segs:
+                n = s if i == 0 else tt
+                if not dropped(n, b):
+                    return None, ('segment %d of route %d-%d is defective although P carries the alignment of node %d with the bend node'
+                                  % (i, s, tt, n))
             fps.add('chain_bend_unaligned')
-        elif gap_like:
-            fps.add('padded_gap_lost')
-        else:
-            return None
-    return sorted(fps) if fps else None
+            continue
+        if s in ov_nodes or tt in ov_nodes:
+            continue        # a connector of a node that overlaps another node (classified above): no clean route exists
+        if be['fails'] != 't' or not pier:
+            return None, 'route %d-%d fails %s without an aesthetic bend and without overlapping end node' % (s, tt, be['fails'])
+        for (_, q) in pier:
+            whys = [cluster_overlap(q, e) for e in (s, tt)]
+            if all(whys):
+                return None, 'route %d-%d through node %d: %s' % (s, tt, q, '; '.join(whys))
+        fps.add('padded_gap_lost')
+    return (sorted(fps), None) if fps else (None, 'nothing classified')
+
+
+def classify(case, r, info):
+    """(fingerprints, None) when every failing item of the rejected drawing satisfies the predicate of a registered known
+    finding (KNOWN_FINDINGS.txt), else (None, reason).  Only `overlap`, `routes` and `seps` rejections can be known."""
+    failed = set(info['failed'])
+    if not failed or not failed <= {'overlap', 'routes', 'seps'}:
+        return None, 'conditions %s fail' % sorted(failed)
+    if info['whole_graph_is_tree']:
+        return classify_tree(case, r, info)
+    return classify_core(case, r, info)
 
 
 def exc_fingerprint(msg):
@@ -406,10 +675,12 @@ def run(tier):
     optc = collections.Counter()
     excs = collections.Counter()
     known = collections.Counter()
-    n_checked = n_ok = n_nodes = n_edges = n_seps = n_segs = 0
+    known_objs = collections.defaultdict(list)
+    n_checked = n_ok = n_nodes = n_edges = n_seps = n_segs = n_tree = n_core = n_chain = 0
     distinct = set()
     samples = []
     new_viol = 0
+    n_unlisted_assert = 0
     end_outside = 0
     for case, r in zip(cases, results):
         fam[case['family'].split(':')[0]] += 1
@@ -424,11 +695,24 @@ def run(tier):
         if 'exc' in r:
             excs[r['exc'][:80]] += 1
             fp = exc_fingerprint(r['exc'])
-            if res.violation({'what': 'doHOLA threw instead of returning a drawing: ' + r['exc'], 'harness_input': G.case_text(case),
-                              'family': case['family'], 'options': o}, fingerprint=fp):
+            eobj = {'what': 'doHOLA threw instead of returning a drawing: ' + r['exc'], 'harness_input': G.case_text(case),
+                    'family': case['family'], 'options': o}
+            k = res.known_fingerprint(fp)
+            exact = any(x['property'] == PID and x['fingerprint'] == fp for x in res.known)
+            if k is not None and not exact and fp not in GENERIC_ASSERT_SITES:
+                # matched only by the catch-all line `exception:assert`: an assertion site that was never seen on the unchanged
+                # tree is tolerated once per run (rare sites keep turning up), a second hit of unlisted sites is reported
+                n_unlisted_assert += 1
+                if n_unlisted_assert > 1:
+                    eobj['what'] += '  [COLA_ASSERT site not listed in KNOWN_FINDINGS.txt; %d unlisted-site failures in this run]' % n_unlisted_assert
+                    res.violation(eobj)
+                    new_viol += 1
+                    continue
+            if res.violation(eobj, fingerprint=fp):
                 new_viol += 1
             else:
                 known[fp] += 1
+                known_objs[fp].append(eobj)
             continue
         if 'checker_error' in r:
             res.violation({'what': 'the extracted checker failed to run', 'error': r['checker_error']}, no_input=True)
@@ -436,6 +720,12 @@ def run(tier):
             continue
         d, v = r['dump'], r['verdict']
         n_checked += 1
+        if is_tree(d):
+            n_tree += 1
+        else:
+            n_core += 1
+            if o.get('useACAforLinks', 1) == 0:
+                n_chain += 1
         n_nodes += len(d['A']['N'])
         n_edges += len(d['A']['E'])
         n_seps += len(d['A']['S'])
@@ -451,12 +741,15 @@ def run(tier):
             n_ok += 1
             continue
         dg = diagnose(case, r)
-        fps = classify(case, r, dg)
+        fps, why = classify(case, r, dg)
+        if why:
+            dg['not_a_known_finding_because'] = why
         obj = replay_obj(case, r, dg, exe)
         if fps and all(res.known_fingerprint(f) for f in fps):
             for f in fps:
                 res.violation(obj, fingerprint=f)
                 known[f] += 1
+                known_objs[f].append(obj)
         else:
             unknown = [f for f in (fps or []) if not res.known_fingerprint(f)]
             if unknown:
@@ -465,7 +758,35 @@ def run(tier):
                 res.violation(obj)
             new_viol += 1
 
+    # ---- backstop only (the classifiers above are the predicates): a fingerprint that fires far more often than on the
+    # unchanged tree is reported even if every single case satisfies its predicate
+    denom = {'tree': n_tree, 'core': n_core, 'chain': n_chain}
+    rate_report = {}
+    for f, (dk, lim, slack) in sorted(RATE_LIMITS.items()):
+        allowed = lim * denom[dk] + slack
+        rate_report[f] = {'hits': known[f], 'of': denom[dk], 'kind': dk, 'allowed': round(allowed, 1)}
+        if known[f] > allowed:
+            objs = known_objs[f]
+            last = objs[-1]
+            res.violation({'what': 'known-finding rate exceeded: fingerprint %s fired on %d of %d %s drawings; the unchanged tree stays below %.1f '
+                                   '(about 3 x the largest rate seen over the calibration seeds + %d)' % (f, known[f], denom[dk], dk, allowed, slack),
+                           'fingerprint_rate': rate_report[f], 'harness_input': last['harness_input'], 'family': last['family'], 'options': last['options'],
+                           'graph': last['graph'], 'diagnosis': last['diagnosis'],
+                           'more_cases': [o['harness_input'] for o in objs[-6:-1]],
+                           'replay': last['replay']})
+            new_viol += 1
+
+    exc_allowed = max(4, 0.01 * len(cases))      # unchanged tree: at most 3 hits of one exception fingerprint in 1100 runs
+    for f in sorted(known):
+        if f.startswith('exception:') and known[f] > exc_allowed:
+            last = known_objs[f][-1]
+            res.violation({'what': 'known-finding rate exceeded: %s on %d of %d runs (allowed %.0f); %s' % (f, known[f], len(cases), exc_allowed, last['what']),
+                           'harness_input': last['harness_input'], 'family': last['family'], 'options': last['options'],
+                           'more_cases': [x['harness_input'] for x in known_objs[f][-6:-1]]})
+            new_viol += 1
+
     res.cov.update({
+        'known_finding_rates': rate_report,
         'explanation': 'Level other. PROVED (Coq, all inputs): the oracle hola_ok is sound and complete for the declaratively stated output '
                        'conditions of doHOLA (same node ids, same edge multiset, sizes kept, no positive-area node overlap, every route >=2 '
                        'points / axis-parallel / ends within the padded end-node boxes / through no third node, every returned SepPair holds - '
@@ -552,10 +873,19 @@ META = {
                   'state, SepMatrix::m_sparseLookup via #define private public); Python glue (double -> exact Fraction -> hex rationals, case '
                   'generation, known-finding classifiers which never accept a drawing, they only label a rejection). Tolerances: sizes 1e-6, overlap 1e-6, '
                   'axis-parallel 1e-9 (measured library drift 3e-14), route ends padding_per_side + 1e-6, through-node 1e-6, separation 1e-6 '
-                  '(satisfied pairs are within 1e-11, violated ones off by > 0.1). The unchanged tree is NOT clean: seven root causes are '
-                  'registered in KNOWN_FINDINGS.txt with classifier predicates (tree centre-child alignment, tree rank collision, stale core '
-                  'constraints, chain bend unaligned, padded gap lost, and runtime_error / COLA_ASSERT / char* exceptions escaping doHOLA); a rejection '
-                  'outside those predicates is a VIOLATION. A source change is visible only through the sampled runs; a broken proof can only come '
+                  '(satisfied pairs are within 1e-11, violated ones off by > 0.1). The unchanged tree is NOT clean: the root causes '
+                  'registered in KNOWN_FINDINGS.txt (tree centre-child alignment, tree rank collision, stale core constraints, chain bend '
+                  'unaligned, cluster-destress overlap = padded gap lost / large graph overlap, and runtime_error / COLA_ASSERT / char* exceptions '
+                  'escaping doHOLA) have classifier PREDICATES that establish the mechanism on the failing case: for trees from the input (ranks, '
+                  'parent/median child, isomorphism classes of the c-trees, padded collisions of different ranks); for graphs with a core from '
+                  'the pipeline\'s own intermediate graphs, obtained by `c14_hola --trace` (a verbatim copy of doHOLA, hola.cpp:59-439, that '
+                  'snapshots the core graph, the planarised graph P at every stage, the Chains\' aesthetic bends and the peeled trees without '
+                  'a heap allocation - the library\'s results depend on heap layout) and used only when that run reproduces the judged drawing '
+                  'to 1e-9: violated constraint in the core\'s SepMatrix and not in P\'s; bend point = final position of the bend node in P '
+                  'and the defective segment\'s alignment dropped by the planarisation; first overlap of the pair in P at a destress with node '
+                  'clusters between a cluster member and an outsider. A rejection outside those predicates is a VIOLATION (the reason is stored '
+                  'in the replay file under diagnosis.not_a_known_finding_because); as a backstop a fingerprint that fires more than 3x as '
+                  'often as on the unchanged tree (coverage.known_finding_rates) is a VIOLATION as well. A source change is visible only through the sampled runs; a broken proof can only come '
                   'from an edit of the Coq files and is then reported with no failing input. Multi-edges, self-loops and disconnected graphs '
                   'are outside the generator domain, as in the property.',
     'technique': 'Coq soundness+completeness proof of an output checker (verified oracle) + proved padding arithmetic; implementation sampled by running doHOLA',
